@@ -417,7 +417,8 @@ def extract_listener(repo, notes):
     f["cfgTimeout"] = ld.get("with_connection_timeout") == "timeout_duration" and "Duration::from_secs(config.timeout)" in re.sub(r"\s+", "", lib)
     f["cfgMaxLen"] = ld.get("with_max_packet_length") in ("config.max_packet_lengthasi32", "i32::try_from(config.max_packet_length).unwrap_or(i32::MAX)")
     f["cfgExpiry"] = ld.get("with_auth_cookie_expiry") == "config.auth_cookie_expiry"
-    f["cfgLimiter"] = ld.get("with_rate_limiter") == "rate_limiter"
+    libflat = re.sub(r"\s+", "", lib)
+    f["cfgLimiter"] = ld.get("with_rate_limiter") == "rate_limiter" and "letrate_limiter=config.rate_limiter.map(|config|{RateLimiter::<IpAddr>::new(Duration::from_secs(config.duration),config.limit)});" in libflat
     pp = ld.get("with_proxy_protocol") or ""
     f["cfgProxy"] = pp.startswith("config.proxy_protocol.map(") and "allow_v1:config.allow_v1" in pp and "allow_v2:config.allow_v2" in pp
     return f, calls, lcalls
